@@ -2,6 +2,7 @@ package rules
 
 import (
 	"fmt"
+	"go/constant"
 	"go/token"
 	"go/types"
 	"sort"
@@ -3526,6 +3527,135 @@ func sharedPooledBufferEscape(c *an.Ctx, rule string, prefixes ...string) (exami
 			c.Check(bad == "", rule, k+" keeps nothing built on its pooled buffer", get.Pos(),
 				"no slice built on the pooled buffer is stored into a longer-lived object",
 				"a slice built on the pooled buffer is "+bad+" although the buffer goes back to the pool when the function returns: the next user of the buffer overwrites it")
+		}
+	}
+	return examined
+}
+
+// sharedErrorChain is the rule for error wrapping on paths whose callers
+// classify errors (errors.As / errors.Is for network errors, not-found errors,
+// …): a fmt.Errorf that is given an error value must wrap it with %w; formatting
+// it with %s or %v cuts the chain, and the caller's classification silently
+// stops matching (no fail-over, no retry, a not-found treated as fatal).
+// Returns the number of fmt.Errorf calls with an error argument examined.
+func sharedErrorChain(c *an.Ctx, rule string, allowed map[string]string, prefixes ...string) (examined int) {
+	errT := types.Universe.Lookup("error").Type().Underlying().(*types.Interface)
+	// verbs of a format string, in argument order ("%%" skipped; explicit argument indexes are not supported)
+	verbs := func(format string) (vs []byte, ok bool) {
+		for i := 0; i < len(format); i++ {
+			if format[i] != '%' {
+				continue
+			}
+			i++
+			for i < len(format) && strings.IndexByte("+-# 0123456789.", format[i]) >= 0 {
+				i++
+			}
+			if i >= len(format) {
+				break
+			}
+			switch format[i] {
+			case '%':
+				continue
+			case '[', '*':
+				return nil, false
+			}
+			vs = append(vs, format[i])
+		}
+		return vs, true
+	}
+	for _, fn := range c.AllFns {
+		if fn.Blocks == nil || c.IsTestFile(fn.Pos()) || strings.Contains(c.Pos(fn.Pos()), ".pb.go:") {
+			continue
+		}
+		k := an.FnKey(fn)
+		in := false
+		for _, p := range prefixes {
+			if strings.HasPrefix(k, p) {
+				in = true
+			}
+		}
+		if !in {
+			continue
+		}
+		if pkg := an.FnPkg(fn); pkg != nil && strings.HasSuffix(pkg.Name(), "test") {
+			continue
+		}
+		for _, call := range an.Calls(fn) {
+			if an.CalleeName(call) != "fmt.Errorf" {
+				continue
+			}
+			args := call.Common().Args
+			fk, ok := args[0].(*ssa.Const)
+			if !ok || fk.Value == nil || fk.Value.Kind() != constant.String || len(args) < 2 {
+				continue
+			}
+			format := constant.StringVal(fk.Value)
+			sl, ok := args[1].(*ssa.Slice)
+			if !ok {
+				continue
+			}
+			arr, ok := sl.X.(*ssa.Alloc)
+			if !ok || arr.Referrers() == nil {
+				continue
+			}
+			// the variadic arguments by position
+			byIdx := map[int64]ssa.Value{}
+			for _, r := range *arr.Referrers() {
+				ia, ok := r.(*ssa.IndexAddr)
+				if !ok || ia.Referrers() == nil {
+					continue
+				}
+				idx, isK := an.ConstInt(ia.Index)
+				if !isK {
+					continue
+				}
+				for _, rr := range *ia.Referrers() {
+					if st, ok := rr.(*ssa.Store); ok {
+						byIdx[idx] = st.Val
+					}
+				}
+			}
+			vs, parsed := verbs(format)
+			var cut []string
+			nErr := 0
+			for idx, v := range byIdx {
+				if mi, ok := v.(*ssa.MakeInterface); ok {
+					v = mi.X
+				}
+				if ci, ok := v.(*ssa.ChangeInterface); ok {
+					v = ci.X
+				}
+				if _, isConst := v.(*ssa.Const); isConst {
+					continue // a sentinel named on purpose
+				}
+				if ld, ok := v.(*ssa.UnOp); ok {
+					if _, isG := ld.X.(*ssa.Global); isG {
+						continue // a package-level sentinel
+					}
+				}
+				if !types.Implements(v.Type(), errT) {
+					continue
+				}
+				nErr++
+				if !parsed || int(idx) >= len(vs) {
+					cut = append(cut, fmt.Sprintf("argument %d (format not understood)", idx))
+				} else if vs[idx] != 'w' {
+					cut = append(cut, fmt.Sprintf("argument %d is formatted with %%%c", idx, vs[idx]))
+				}
+			}
+			if nErr == 0 {
+				continue
+			}
+			examined++
+			c.Analysed(k)
+			key := fmt.Sprintf("%s wraps the error it reports (%q)", k, format)
+			if allowed[k] != "" {
+				c.Ok(rule, key, call.Pos(), "exception: "+allowed[k])
+				continue
+			}
+			sort.Strings(cut)
+			c.Check(len(cut) == 0, rule, key, call.Pos(), "every error value is wrapped with %w",
+				"an error value is formatted without %w ("+strings.Join(cut, "; ")+"): callers that classify the error with errors.As / errors.Is no longer see the cause")
 		}
 	}
 	return examined
